@@ -396,6 +396,59 @@ func vpC02Lists(n int) {
 func vpH_C02_lists2() { vpC02Lists(2) }
 func vpT_C02_lists3() { vpC02Lists(3) }
 
+// single-item positions holding a value that serialises to nothing (an object with nothing set, an
+// empty list, a nil pointer, the empty IRI): the holder is still one valid JSON object without a trace
+// of the member
+func vpH_C02_empty_items() {
+	var v Item
+	switch vpChoice(5) {
+	case 0:
+		v = &Object{}
+	case 1:
+		v = ItemCollection{}
+	case 2:
+		v = (*Object)(nil)
+	case 3:
+		v = IRI("")
+	default:
+		v = ItemCollection{&Object{}, nil}
+	}
+	var x Item
+	term := ""
+	switch vpChoice(8) {
+	case 0:
+		x, term = &Object{ID: "https://h.ex/i", Type: NoteType, Attachment: v}, "attachment"
+	case 1:
+		x, term = &Object{ID: "https://h.ex/i", Type: NoteType, Icon: v, Name: NaturalLanguageValues{{Ref: NilLangRef, Value: Content("n")}}}, "icon"
+	case 2:
+		x, term = &Activity{ID: "https://h.ex/i", Type: LikeType, Object: v, Actor: IRI("https://h.ex/a")}, "object"
+	case 3:
+		x, term = &Activity{ID: "https://h.ex/i", Type: LikeType, Actor: v}, "actor"
+	case 4:
+		x, term = &Actor{ID: "https://h.ex/i", Type: PersonType, Inbox: v}, "inbox"
+	case 5:
+		x, term = &OrderedCollectionPage{ID: "https://h.ex/i", Type: OrderedCollectionPageType, Next: v, PartOf: IRI("https://h.ex/c")}, "next"
+	case 6:
+		x, term = &Question{ID: "https://h.ex/i", Type: QuestionType, OneOf: ItemCollection{}, Closed: true, Target: v}, "target"
+	default:
+		x, term = &Link{ID: "https://h.ex/i", Type: MentionType, Href: "https://h.ex/l", Preview: v}, "preview"
+	}
+	b, err := vpMarshalItem(x)
+	vpAssert("empty-items/no-error/"+term, err == nil && len(b) > 0)
+	if len(b) == 0 {
+		vpReach("end")
+		return
+	}
+	doc, _ := vpParseJSON(b)
+	vpAssert("empty-items/valid-json/"+term, doc != nil && doc.kind == 'o')
+	if doc != nil && doc.kind == 'o' {
+		m := doc.get(term)
+		vpAssert("empty-items/member-absent-or-empty/"+term, m == nil || (m.kind == 'a' && len(m.elems) == 0) || (m.kind == 'o' && len(m.names) == 0))
+		vpAssert("empty-items/id-kept/"+term, doc.get("id") != nil)
+	}
+	vpReach("end")
+}
+
 func vpW_C02_twin() {
 	x := &Object{ID: IRI(vpBytes(1)), Type: NoteType}
 	b, _ := x.MarshalJSON()
